@@ -294,13 +294,24 @@ def _find_echo(needles, where, text, echo):
             echo.add((src, where))
 
 
+def _verbatim(s, text):
+    """s occurs in text as it was sent (an occurrence that ends in '&amp;' is the escaped form of a final '&')"""
+    for cand in (s, s.lower()):
+        i = text.find(cand)
+        while i >= 0:
+            if not (cand.endswith('&') and text.startswith('amp;', i + len(cand))):
+                return True
+            i = text.find(cand, i + 1)
+    return False
+
+
 _TRACE_RE = re.compile(r'Traceback \(most recent call last\)|File "[^"]+", line \d+')
 
 
-def observe(world, raw, needles):
+def observe(world, raw, needles, full=None):
     """raw outcome -> observation dict (only strings / ints / lists, JSON-able).
 
-    needles: {param name: token} - where does request-derived text come back?"""
+    needles: {param name: token} - where does request-derived text come back?  full: {param name: whole text sent}"""
     o = {'raised': 'no', 'status': 0, 'ctype': 'none', 'kind': 'none', 'w': 0, 'h': 0, 'skel': 'none', 'code': 'none',
          'struct': '', 'echo': [], 'problems': [], 'leak': [], 'markup': []}
     if raw.get('raised'):
@@ -414,6 +425,10 @@ def observe(world, raw, needles):
         o['kind'] = 'other'
     for pos in sorted(p for s, p in echo if p in ('markup', 'comment')):
         o['markup'].append('request text reached a %s position' % pos)
+    if o['kind'] in ('xml', 'html') and text is not None:
+        for src, s in sorted((full or {}).items()):
+            if ('<' in s or '&' in s) and len(s) > 8 and _verbatim(s, text):
+                o['markup'].append('the text of %s is in the document unescaped' % src)
     # leaks: tracebacks and server paths in anything sent to the client
     sent = (text if text is not None else '') + '\n' + '\n'.join('%s: %s' % (k, v) for k, vs in hd.items() for v in vs)
     if _TRACE_RE.search(sent):
@@ -475,6 +490,7 @@ class Strings(object):
     def __init__(self, rng, mode):
         self.rng, self.mode = rng, mode     # mode: 'benign' | 'hostile'
         self.needles = {}
+        self.full = {}                      # param -> the whole text sent
         self.n = 0
 
     def token(self, param):
@@ -486,9 +502,12 @@ class Strings(object):
     def text(self, param, cls, where='query'):
         tok = self.token(param)
         if self.mode == 'benign':
-            return tok + BENIGN + ('~' if where == 'path' else '') + ('\xe9' if cls == 'latin1' else '')
-        pool = POOL['hdr_hostile'] if (where == 'header' and cls == 'hostile') else POOL[cls]
-        return tok + self.rng.choice(pool)
+            s = tok + BENIGN + ('~' if where == 'path' else '') + ('\xe9' if cls == 'latin1' else '')
+        else:
+            pool = POOL['hdr_hostile'] if (where == 'header' and cls == 'hostile') else POOL[cls]
+            s = tok + self.rng.choice(pool)
+        self.full[param] = s
+        return s
 
     def number(self, param):
         if self.mode == 'benign':
